@@ -192,7 +192,9 @@ func (s *vDMState) done() bool {
 	}
 }
 
-func (s *vDMState) note(f string, a ...interface{}) { s.run.Notes = append(s.run.Notes, fmt.Sprintf(f, a...)) }
+func (s *vDMState) note(f string, a ...interface{}) {
+	s.run.Notes = append(s.run.Notes, fmt.Sprintf(f, a...))
+}
 
 // settle waits until the loop is parked and, if it says an operation is in
 // flight, until that operation's scripted call has registered.
